@@ -267,6 +267,11 @@ pub fn make_fixture(ch: &Choices, seekable: bool) -> Option<Fixture> {
 /// writer) whose block size changes from frame to frame (variable blocking strategy, coded sample
 /// numbers) or a fixed-blocking stream, behind a hand-made STREAMINFO and seek table of the drawn shape
 pub fn make_foreign_fixture(ch: &Choices, seekable: bool) -> Option<Fixture> {
+    make_foreign_fixture_sized(ch, seekable, false)
+}
+
+/// `small`: 1-3 frames of 16-40 samples, at most 2 channels mostly (for exhaustive damage enumeration)
+pub fn make_foreign_fixture_sized(ch: &Choices, seekable: bool, small: bool) -> Option<Fixture> {
     use crate::refflac;
     use crate::scen_synth::make_frame_from;
     use flac_codec::metadata::{Block, Padding, Streaminfo, write_blocks};
@@ -276,17 +281,18 @@ pub fn make_foreign_fixture(ch: &Choices, seekable: bool) -> Option<Fixture> {
     let channels: usize = match assign {
         0 => 1,
         1..=4 => 2,
+        _ if small => 2 + (rng.next() % 2) as usize,
         _ => 3 + (rng.next() % 6) as usize,
     };
     let variable = ch.draw("rdg.variable", 3) != 0;
-    let nframes = 2 + ch.draw("rdg.frames", 6) as usize;
-    let base = 16 + ch.draw("rdg.block", 100) as usize;
+    let nframes = if small { 1 + ch.draw("rdg.frames", 3) as usize } else { 2 + ch.draw("rdg.frames", 6) as usize };
+    let base = 16 + ch.draw("rdg.block", if small { 24 } else { 100 }) as usize;
     let mut sizes: Vec<usize> = (0..nframes)
-        .map(|_| if variable { *ch.pick("rdg.size", &[16usize, 17, 32, 100, 192, 64, 23, 48]) } else { base })
+        .map(|_| if variable { *ch.pick("rdg.size", if small { &[16usize, 17, 32, 20, 24, 40, 23, 18] } else { &[16usize, 17, 32, 100, 192, 64, 23, 48] }) } else { base })
         .collect();
     if variable && ch.draw("rdg.size.any", 2) == 1 {
         for s in sizes.iter_mut() {
-            *s = 16 + (rng.next() % 120) as usize;
+            *s = 16 + (rng.next() % if small { 24 } else { 120 }) as usize;
         }
     }
     // the last frame may be short
@@ -317,7 +323,7 @@ pub fn make_foreign_fixture(ch: &Choices, seekable: bool) -> Option<Fixture> {
     let pcm = Pcm { channels, bps, frames: total as usize, inter };
     let body = &sizes[..sizes.len() - 1];
     let (minb, maxb) = if variable {
-        (*body.iter().min().unwrap() as u16, *sizes.iter().max().unwrap().max(&16) as u16)
+        (*body.iter().min().unwrap_or(&16) as u16, *sizes.iter().max().unwrap().max(&16) as u16)
     } else {
         (base as u16, base as u16)
     };
